@@ -53,6 +53,15 @@ Theorem C20_mode_switch : forall detect s v ops,
 Proof. intros. split; [apply tr_run_after_set|apply tr_run_after_reset]; assumption. Qed.
 Print Assumptions C20_mode_switch.
 
+(* ... and None really re-runs the detection: the next check tests again (warning iff the self-test fails on
+   this interpreter), whatever was set or detected before; an explicit value never tests and never warns *)
+Theorem C20_reset_redetects : forall detect s v ops,
+  Forall (fun o => o = TCheck) ops ->
+  tr_warns detect s (TSet None :: TCheck :: ops) = false :: negb detect :: map (fun _ => false) ops
+  /\ tr_warns detect s (TSet (Some v) :: ops) = false :: map (fun _ => false) ops.
+Proof. intros. split; [apply tr_warns_after_reset|apply tr_warns_after_set]; assumption. Qed.
+Print Assumptions C20_reset_redetects.
+
 Example C20_example_check : checkk V312 KRef ex_code ex_table ex_cert = true.
 Proof. vm_compute. reflexivity. Qed.
 Example C20_example_in_aexit :
